@@ -175,32 +175,151 @@ pub fn run_const(
     fill: u8,
 ) -> DecResult {
     let mut d = DecDrv::new(mode, buf_len, base_flags, fill);
-    let limit = (data.len() + buf_len) as u32 * 2 + 64;
-    let mut first = true;
-    loop {
-        let add = if first || d.last == Some(TINFLStatus::NeedsMoreInput) { chunk } else { 0 };
-        first = false;
-        let o = d.step(data, add, budget);
-        if d.terminal() {
-            break;
-        }
-        if o.status == TINFLStatus::HasMoreOutput && d.mode == Mode::Flat && d.out_pos == d.buf.len() {
-            break;
-        }
-        if o.status == TINFLStatus::NeedsMoreInput && d.avail_end == data.len() && o.offered == o.consumed {
-            // cannot happen when F_MORE is cleared at the end; guard anyway
-            if add == 0 {
-                break;
-            }
-        }
-        if d.calls > limit {
-            break;
-        }
-    }
+    drive(&mut d, data, chunk, budget, &mut |_, _| {});
     DecResult { status: d.last.unwrap(), out: d.out, consumed: d.in_pos, calls: d.calls }
 }
 
 /// One-call flat decode with everything offered and no more input announced.
 pub fn run_once_flat(data: &[u8], zlib: bool, cap: usize) -> DecResult {
     run_const(data, Mode::Flat, cap, if zlib { F_ZLIB } else { 0 }, usize::MAX, usize::MAX, 0)
+}
+
+// ---------------------------------------------------------------------------------------
+// Streaming inflate wrapper
+// ---------------------------------------------------------------------------------------
+use miniz_oxide::inflate::stream::{inflate, InflateState};
+use miniz_oxide::{DataFormat, MZError, MZFlush, MZResult, MZStatus};
+
+pub fn mzres_code(r: &MZResult) -> i32 {
+    match r {
+        Ok(s) => *s as i32,
+        Err(e) => *e as i32,
+    }
+}
+
+pub fn mzres_name(r: &MZResult) -> &'static str {
+    match mzres_code(r) {
+        0 => "Ok",
+        1 => "StreamEnd",
+        2 => "NeedDict",
+        -1 => "ErrNo",
+        -2 => "Stream",
+        -3 => "Data",
+        -4 => "Mem",
+        -5 => "Buf",
+        -6 => "Version",
+        -10000 => "Param",
+        _ => "?",
+    }
+}
+
+#[derive(Clone, Debug, PartialEq, Eq)]
+pub struct InfResult {
+    pub code: i32,
+    pub out: Vec<u8>,
+    pub consumed: usize,
+    pub calls: u32,
+}
+
+/// The usual driver loop: `inflate(state, next input chunk, next output chunk, flush)` with
+/// constant chunk sizes until StreamEnd / error / call limit.
+pub fn inflate_loop_const(data: &[u8], fmt: DataFormat, chunk: usize, room: usize, flush: MZFlush) -> InfResult {
+    let mut st = InflateState::new_boxed(fmt);
+    inflate_loop_from(&mut st, data, 0, chunk, room, flush, Vec::new())
+}
+
+pub fn inflate_loop_from(
+    st: &mut InflateState,
+    data: &[u8],
+    mut ip: usize,
+    chunk: usize,
+    room: usize,
+    flush: MZFlush,
+    mut out: Vec<u8>,
+) -> InfResult {
+    let mut buf = vec![0u8; room.min(1 << 20)];
+    let mut calls = 0u32;
+    let limit = (data.len() * 2 + 8) as u32 + 1_000_000;
+    let mut code;
+    loop {
+        let end = ip.saturating_add(chunk).min(data.len());
+        let r = inflate(st, &data[ip..end], &mut buf, flush);
+        calls += 1;
+        if r.bytes_consumed > end - ip || r.bytes_written > buf.len() {
+            return InfResult { code: -9999, out, consumed: ip, calls };
+        }
+        ip += r.bytes_consumed;
+        out.extend_from_slice(&buf[..r.bytes_written]);
+        code = mzres_code(&r.status);
+        if code != 0 {
+            break;
+        }
+        if calls > limit {
+            code = -7777; // livelock marker
+            break;
+        }
+        if r.bytes_consumed == 0 && r.bytes_written == 0 && ip == data.len() {
+            // Ok with no progress and nothing left to offer: starved
+            code = -7778;
+            break;
+        }
+    }
+    InfResult { code, out, consumed: ip, calls }
+}
+
+#[cfg(feature = "hooks")]
+pub fn inf_fp(s: &InflateState, h: &mut H128) {
+    s.verif_hash(h);
+}
+#[cfg(not(feature = "hooks"))]
+pub fn inf_fp(_s: &InflateState, _h: &mut H128) {}
+
+#[allow(dead_code)]
+pub fn fmt_name(f: DataFormat) -> &'static str {
+    match f {
+        DataFormat::Zlib => "Zlib",
+        DataFormat::ZLibIgnoreChecksum => "ZLibIgnoreChecksum",
+        DataFormat::Raw => "Raw",
+        _ => "?",
+    }
+}
+#[allow(unused_imports)]
+use MZError as _MZErrorUnused;
+#[allow(unused_imports)]
+use MZStatus as _MZStatusUnused;
+
+
+/// The generic constant-schedule driver loop: offer `chunk` more input whenever the decoder
+/// asked for input (or cannot write: region full / zero room), grant `budget` per call; stop at a
+/// terminal status or when a call made no progress and nothing more can be offered.
+pub fn drive(d: &mut DecDrv, data: &[u8], chunk: usize, budget: usize, on_step: &mut dyn FnMut(&DecDrv, &StepObs)) {
+    // every call either makes progress (bounded by input + output length) or is one of a few
+    // idle calls; the absolute cap only guards against a decoder that "progresses" forever
+    let limit = 200_000_000u32;
+    let mut want_input = true;
+    let mut idle = 0u32;
+    loop {
+        let before_avail = d.avail_end;
+        let add = if want_input { chunk } else { 0 };
+        let o = d.step(data, add, budget);
+        on_step(d, &o);
+        if d.terminal() || d.calls > limit {
+            break;
+        }
+        let progressed = o.consumed > 0 || o.written > 0 || d.avail_end > before_avail;
+        idle = if progressed { 0 } else { idle + 1 };
+        if idle > 8 {
+            break;
+        }
+        want_input = o.status == TINFLStatus::NeedsMoreInput || (o.status == TINFLStatus::HasMoreOutput && o.written == 0);
+        if !progressed && (d.avail_end == data.len()) && (budget == 0 || (d.mode == Mode::Flat && d.out_pos == d.buf.len())) {
+            break;
+        }
+        if !progressed && d.avail_end == data.len() && !want_input {
+            break;
+        }
+        if !progressed && want_input && d.avail_end == data.len() && o.status == TINFLStatus::HasMoreOutput {
+            break;
+        }
+    }
 }
